@@ -803,6 +803,8 @@ def c12(ctx: Ctx) -> None:
         failed = [o for o in outs if o.state.facts.get('raised:' + r.os_release.name)]
         if not failed:
             ctx.note('the OS release helper cannot raise under the raise model; C12-R9 failure path not exercised')
+            ctx.holds('C12-R9', 'the OS release helper has no raising call under the raise model: no failure path to check',
+                      f'{FILE}:{r.os_release.lineno}')
         seen9 = set()
         for o in failed:
             s = o.state
